@@ -29,7 +29,10 @@ Tolerance == 16384      \* bytes; bisection granularity is 4 KiB
 
 RunOK(r) ==
   /\ Chk("a game of " \o ToString(r.n) \o " capture-free turns did not survive clone/query/drop on a "
-           \o ToString(r.stack) \o "-byte stack: " \o r.status, r.survived = 1)
+           \o ToString(r.stack) \o "-byte stack: " \o r.status,
+         \* exit3 = the DRIVER's random walk found no capture-free non-repeating step (after six seeds):
+         \* that run says nothing about the engine and is not judged
+         r.survived = 1 \/ r.status = "exit3")
   /\ Chk("history length, iteration or tail of the long game are wrong",
          r.survived = 1 => (r.res.ok = 1 /\ r.res.turns = r.n /\ r.res.hl = r.n + 1
                               /\ r.res.iter_len = r.n + 1 /\ r.res.tail_len = r.n))
